@@ -1,8 +1,9 @@
 (* C02 (dataflow form): for every control-flow statement, every simple name x bound in one of its
    bodies: if x is live after the statement it is carried in the state tuple AND is among the declared
    outputs (index < nouts); if x is live on entry (read before being written, or read by a later
-   iteration) it is carried; if x is declared nonlocal or global in the function it is carried --
-   whatever the liveness sets are.  Conversely nothing else is carried.  The selection formulas
+   iteration) it is carried; if x is declared nonlocal or global in the function it is carried and is
+   among the declared outputs as well (it stays observable after the function returns) -- whatever the
+   liveness sets are.  Conversely nothing else is carried.  The selection formulas
    (basic_cond_gen, input_only_gen) are translated from control_flow.py on every run.
    Together with C07 (a value read later before being overwritten is live-out) this is the property's
    "every variable ... observable afterwards or on a later iteration is carried".
@@ -15,7 +16,7 @@ Require Import MV.Ctrl.BlockSyntax MV.Generated.C02_gen MV.Ctrl.BlockVars MV.Ctr
 Theorem state_complete : forall (c : ctx) (x : name), In x (modified c) ->
   (In x (live_out c) -> exists i, index_of x (state c) = Some i /\ i < nouts c)
   /\ (In x (live_in c) -> In x (state c))
-  /\ (In x (fn_nonlocals c) \/ In x (fn_globals c) -> In x (state c)).
+  /\ (In x (fn_nonlocals c) \/ In x (fn_globals c) -> exists i, index_of x (state c) = Some i /\ i < nouts c).
 Proof. exact state_complete_lemma. Qed.
 
 Theorem state_only_what_is_needed : forall (c : ctx) (x : name), In x (state c) ->
@@ -24,7 +25,9 @@ Proof. exact state_sound. Qed.
 
 Example state_nonvacuous :
   let c := mkctx ["x"; "y"; "t"; "g"]%string ["y"]%string ["x"]%string [] ["g"]%string in
-  state c = ["x"; "g"; "y"]%string /\ nouts c = 2.
-Proof. vm_compute; split; reflexivity. Qed.
+  state c = ["x"; "g"; "y"]%string /\ nouts c = 2 /\
+  (* a declared global that is read and written by the statement but dead inside the function is an output *)
+  let c2 := mkctx ["g"]%string ["g"]%string [] [] ["g"]%string in state c2 = ["g"]%string /\ nouts c2 = 1.
+Proof. vm_compute; repeat split; reflexivity. Qed.
 Print Assumptions state_complete.
 Print Assumptions state_only_what_is_needed.
